@@ -3,8 +3,11 @@
 package actor
 
 import (
+	"sync/atomic"
+
 	"github.com/kercylan98/vivid"
 	"github.com/kercylan98/vivid/internal/messages"
+	"github.com/kercylan98/vivid/pkg/ves"
 )
 
 // C08 / C09 — supervision applies exactly the decided directive to exactly its
@@ -345,5 +348,177 @@ func VH_C08_escalate_chain() {
 	case dec.IsEscalate():
 		vrtReach("escalate")
 		vrtAssert(gp.state == killed && t1.state == killed && p.state == killed && u.state == killed && c0.state == killed && c1.state == killed, "escalation-ends-in-default-stop-of-the-escalating-subtree")
+	}
+}
+
+// runOnly delivers envelopes to the given contexts only, until none of them
+// has a deliverable envelope.
+func (w *vhWorld) runOnly(max int, name string, only ...*Context) {
+	n := 0
+	for {
+		progressed := false
+		for _, c := range only {
+			if e := w.boxes[c].next(); e != nil {
+				c.HandleEnvelop(e)
+				progressed = true
+				n++
+				vrtAssert(n <= max, name)
+				break
+			}
+		}
+		if !progressed {
+			return
+		}
+	}
+}
+
+// VH_C08_child_fails_while_supervisor_in_transition: tree root -> g -> p -> c.
+// The supervisor p is already restarting (its own failure, g decides a
+// graceful restart) or stopping (poison kill from outside) and has told its
+// still-running child c to stop (a poison kill queued as user mail) when c,
+// working through its earlier mail, fails. That failure is a failure like any
+// other: p's strategy is consulted exactly once and its decision applied; c is
+// not left paused, p is not left half-stopped, mail to c is processed or
+// dead-lettered.
+func VH_C08_child_fails_while_supervisor_in_transition() {
+	vhLog = nil
+	w := vhNewWorld()
+	dg := &vhDecider{decision: vivid.SupervisionDecisionGracefulRestart}
+	ga := vhLogged("g")
+	g := w.spawn(w.root, "g", ga, vivid.WithActorSupervisionStrategy(vivid.OneForOneStrategy(dg)))
+	dp := &vhDecider{decision: vivid.SupervisionDecision(1 + vrtChoose(6))}
+	vrtAssume(!dp.decision.IsEscalate())
+	pa := vhFailing("p", false)
+	p := w.spawn(g, "p", pa, vivid.WithActorSupervisionStrategy(vivid.OneForOneStrategy(dp)))
+	ca := vhFailing("c", vrtBool())
+	c := w.spawn(p, "c", ca)
+	rec := w.spawn(w.root, "rec", &vhActor{name: "rec"})
+	es := w.sys.eventStream.(*eventStream)
+	es.Subscribe(rec, ves.DeathLetterEvent{})
+
+	// c's earlier mail: it will fail on it, but only after p has told it to stop
+	c.TellSelf(&vhBoom{})
+	c.TellSelf(&vhUserMsg{N: 2})
+	mode := vrtChoose(2)
+	if mode == 0 {
+		p.TellSelf(&vhBoom{}) // p fails; g restarts it gracefully
+		vrtReach("supervisor-restarting")
+	} else {
+		w.root.Kill(p.ref, true, "stop") // p is stopped by a poison kill
+		vrtReach("supervisor-stopping")
+	}
+	w.runOnly(200, "transition-terminates", p, g, w.root)
+	vrtAssert(atomic.LoadInt32(&p.state) == killing, "setup-supervisor-is-in-transition")
+	vrtAssert(c.state == running, "setup-child-still-running")
+	// now c works through its mail and fails
+	w.run(800, "supervision-terminates")
+	vrtYield()
+	w.run(800, "supervision-terminates")
+
+	vrtAssert(dp.calls == 1, "strategy-consulted-exactly-once")
+	for _, x := range []*Context{g, p, c} {
+		vrtAssert(x.state == running || x.state == killed, "nobody-half-stopped")
+		if x.state == running && !x.zombie {
+			vrtAssert(!w.boxes[x].paused, "no-survivor-left-paused")
+			vrtAssert(len(w.boxes[x].usr) == 0 && len(w.boxes[x].sys) == 0, "no-survivor-left-with-undelivered-mail")
+		}
+	}
+	// the child was told to stop by its supervisor: it terminates
+	vrtAssert(c.state == killed, "stopped-child-terminates")
+	if mode == 0 {
+		vrtAssert(p.state == running, "restarted-supervisor-runs-again")
+	} else {
+		vrtAssert(p.state == killed, "stopped-supervisor-terminates")
+	}
+	// C03: the mail queued behind the failing message is processed or dead-lettered, once
+	processed := vhSeenUser(ca, 2)
+	dead := 0
+	for _, e := range w.boxes[rec].all {
+		if d, ok := e.Message().(ves.DeathLetterEvent); ok {
+			if u, ok := d.Envelope.Message().(*vhUserMsg); ok && u.N == 2 {
+				dead++
+			}
+		}
+	}
+	vrtAssert(processed+dead == 1, "exactly-one-fate")
+}
+
+// VH_C09_zombie_sibling: one-for-all supervision with a Restart decision. Child
+// a's restart hook fails, so a becomes a zombie. Later its sibling b fails: the
+// directive (pause + restart) reaches the zombie too. Afterwards the zombie is
+// still not paused (it keeps consuming its mail), runs no user code, and is
+// released by an explicit (also a graceful) Kill or by its parent's
+// termination; b is running and processes later mail.
+func VH_C09_zombie_sibling() {
+	vhLog = nil
+	w := vhNewWorld()
+	graceful := vrtBool()
+	dec := vivid.SupervisionDecisionRestart
+	if graceful {
+		dec = vivid.SupervisionDecisionGracefulRestart
+	}
+	d := &vhDecider{decision: dec}
+	pa := vhLogged("p")
+	p := w.spawn(w.root, "p", pa, vivid.WithActorSupervisionStrategy(vivid.OneForAllStrategy(d)))
+	ha := &vhHookActor{}
+	ha.name = "a"
+	which := vrtChoose(2)
+	if which == 0 {
+		ha.restarted = 1 + vrtChoose(2)
+	} else {
+		ha.prelaunch = 1 + vrtChoose(2)
+	}
+	ha.onMsg = func(ctx vivid.ActorContext, m vivid.Message) {
+		vhLog = append(vhLog, vhLogEntry{"a", m})
+		if _, ok := m.(*vhBoom); ok {
+			panic("vh-fault")
+		}
+	}
+	prelaunchArmed := ha.prelaunch
+	ha.prelaunch = 0 // the initial spawn succeeds
+	a := w.spawn(p, "a", ha)
+	ha.prelaunch = prelaunchArmed
+	ba := vhFailing("b", false)
+	b := w.spawn(p, "b", ba)
+
+	a.TellSelf(&vhBoom{})
+	w.run(800, "supervision-terminates")
+	vrtAssert(a.zombie, "hook-failure-makes-zombie")
+	vrtAssert(b.state == running, "sibling-restarted")
+	userSeenByZombie := len(ha.seen)
+
+	b.TellSelf(&vhBoom{}) // the directive now reaches the zombie as well
+	w.run(800, "supervision-terminates")
+	vrtAssert(b.state == running && !w.boxes[b].paused, "no-survivor-left-paused")
+	vrtAssert(!w.boxes[a].paused, "zombie-not-left-paused")
+	a.TellSelf(&vhUserMsg{N: 50})
+	b.TellSelf(&vhUserMsg{N: 51})
+	w.run(800, "supervision-terminates")
+	vrtAssert(len(w.boxes[a].usr) == 0 && len(w.boxes[a].sys) == 0, "zombie-keeps-consuming-its-mail")
+	vrtAssert(vhSeenUser(&ha.vhActor, 50) == 0 && len(ha.seen) == userSeenByZombie, "zombie-runs-no-user-code")
+	vrtAssert(vhSeenUser(b.actor.(*vhActor), 51) == 1, "survivor-processes-later-mail")
+
+	noticeA := func(e vivid.Envelop) bool { return vhIsOwnKilled(a.ref)(e.Message()) }
+	if vrtChoose(2) == 0 {
+		w.root.Kill(a.ref, vrtBool(), "release") // explicit kill, immediate or graceful
+		w.run(800, "kill-terminates")
+		_, err := w.sys.FindActor(a.ref.String())
+		vrtAssert(err != nil, "zombie-path-released-by-explicit-kill")
+		vrtAssert(!w.boxes[a].paused, "zombie-not-left-paused")
+		// released exactly once (by the second restart directive or by this kill)
+		vrtAssert(vhCountEnv(w.boxes[p], noticeA) >= 1, "zombie-release-reported-to-parent")
+		vrtAssert(vhCountEnv(w.boxes[p], noticeA) <= 1, "zombie-release-reported-to-parent-at-most-once")
+		vrtAssert(p.state == running && b.state == running, "zombie-release-leaves-the-others-running")
+		vrtReach("released-by-kill")
+	} else {
+		w.root.Kill(p.ref, vrtBool(), "parent")
+		w.run(800, "kill-terminates")
+		vrtAssert(p.state == killed && b.state == killed, "zombie-released-by-parent-termination")
+		_, err := w.sys.FindActor(a.ref.String())
+		vrtAssert(err != nil, "zombie-released-by-parent-termination")
+		_, err = w.sys.FindActor(p.ref.String())
+		vrtAssert(err != nil, "zombie-released-by-parent-termination")
+		vrtAssert(vhCountEnv(w.boxes[p], noticeA) <= 1, "zombie-release-reported-to-parent-exactly-once")
+		vrtReach("released-by-parent")
 	}
 }
